@@ -41,9 +41,46 @@ ATOM_TEXT = {'kw:a': 'a', 'kw:b': 'b', 'kw:c': 'c', 'kw:d': 'd',
 
 _ENG = {}
 
+# "the default table, the legacy table": the two stock tables, written down
+# here (groups of (symbol, kind[, alias]), tightest first; kinds l/r = binary
+# left/right associative, p = prefix, n = name-value pair) so that the
+# expected trees do not follow a change of the tables themselves
+_L, _R, _PRE = (OT.BINARY_LEFT_ASSOCIATIVE, OT.BINARY_RIGHT_ASSOCIATIVE,
+                OT.PREFIX_UNARY)
+_COMMON_GROUPS = [
+    [('[]', _L), ('{}', _L)],
+    [('+', _PRE), ('-', _PRE)],
+    [('=~', _L), ('!~', _L)],
+    [('*', _L), ('/', _L), ('mod', _L)],
+    [('+', _L), ('-', _L)],
+    [('>', _L), ('<', _L), ('>=', _L), ('<=', _L), ('!=', _L, 'not_equal'),
+     ('=', _L, 'equal'), ('in', _L)],
+    [('not', _PRE)],
+    [('and', _L)],
+    [('or', _L)],
+]
+STOCK_GROUPS = {
+    'default': [[('=>', OT.NAME_VALUE_PAIR), ('.', _L), ('?.', _L)]] +
+    _COMMON_GROUPS + [[('->', _R)]],
+    'legacy': [[('.', _L), ('?.', _L)]] + _COMMON_GROUPS +
+    [[('=>', _L, None)], [('->', _R)]],
+}
+
+
+def stock_ops(base):
+    out = []
+    for i, g in enumerate(STOCK_GROUPS[base]):
+        if i:
+            out.append(())
+        out.extend(g)
+    return out
+
 
 def engine_for(table_spec):
-    """table_spec: {'base': 'default'|'legacy', 'inserts': [...]}"""
+    """table_spec: {'base': 'default'|'legacy', 'inserts': [...], 'after':
+    [...] (operators inserted into the same factory *after* the engine was
+    created; they must not affect it), 'via': plain | copy | options (the
+    engine itself, engine.copy(options), or engine(text, options=...))}"""
     key = repr(table_spec)
     if key not in _ENG:
         if len(_ENG) > 300:
@@ -51,8 +88,20 @@ def engine_for(table_spec):
         f = common.make_factory(table_spec['base'],
                                 [tuple(i) for i in table_spec['inserts']])
         ops = [tuple(r) for r in f.operators]
+        if not table_spec['inserts']:
+            # stock table: expectations come from the pinned copy
+            ops = stock_ops(table_spec['base'])
         try:
             eng = f.create()
+            for ins in table_spec.get('after', []):
+                f.insert_operator(*ins)
+            via = table_spec.get('via', 'plain')
+            if via == 'copy':
+                eng = eng.copy({'yaql.limitIterators': 7})
+            elif via == 'options':
+                inner = eng
+                eng = lambda text: inner(   # noqa: E731
+                    text, options={'yaql.limitIterators': 7})
             _ENG[key] = ('ok', eng, ops)
         except yexc.InvalidOperatorTableException as e:
             _ENG[key] = ('invalid', e, ops)
@@ -175,10 +224,29 @@ def check_program(run, case):
     if st_ != 'ok':
         run.exclude('table does not build: %s' % st_)
         return
-    expected = P.parse(ops, list(tokens))
     ws = ws_from(case.get('ws') or [1])
     text = render(tokens, ws)
     got = trees.parse_outcome(eng, text)
+    later = {i[2] for i in spec.get('after', [])}
+    if any(t[0] in ('pre', 'bin', 'suf') and t[1] in later
+           for t in _flat(tokens)):
+        # the text uses a symbol that became an operator of the *factory*
+        # only after this engine was created: the engine must treat the text
+        # exactly like an engine of an untouched factory with the same table
+        ref = engine_for({'base': spec['base'], 'inserts': spec['inserts']})
+        exp = trees.parse_outcome(ref[1], text)
+        run.case(case, True, cls=['program', 'later-operator-in-text',
+                                  'via=' + spec.get('via', 'plain')])
+        if got[:2] != exp[:2] or (got[0] == 'exc' and got[2] != exp[2]):
+            run.violate('engine-follows-later-insertions', case,
+                        '%r -> %s through an engine created before %r were '
+                        'inserted into its factory (%s); an engine of the '
+                        'same table gives %s' % (
+                            text, got[:3], sorted(later),
+                            spec.get('via', 'plain'), exp[:3]),
+                        input_class='frozen-' + spec.get('via', 'plain'))
+        return
+    expected = P.parse(ops, list(tokens))
     used_inserted = any(t[0] in ('pre', 'bin', 'suf') and t[1] in {
         i[2] for i in spec['inserts']} for t in _flat(tokens))
     run.case(case, _adjacent_ops(tokens) or used_inserted,
@@ -233,7 +301,7 @@ def check_table(run, case):
     model = P.groups_of(base_ops)
     for ins in spec['inserts']:
         model = P.insert(model, *ins)
-    if not P.same_groups(model, P.groups_of(ops)):
+    if spec['inserts'] and not P.same_groups(model, P.groups_of(ops)):
         run.case(case, True, cls=['table'])
         run.violate('insert-operator-builds-other-table', case,
                     'inserts %r on the %s table give groups %r; the '
@@ -259,9 +327,23 @@ REPLAY = {'program': check_program, 'table': check_table}
 # --------------------------------------------------------------------------
 # exhaustive part (stock tables)
 
+def check_stock(run, case):
+    """the factories build the two stock tables"""
+    base = case['base']
+    ops = [tuple(r) for r in common.make_factory(base).operators]
+    run.case(case, True, cls=['stock-table'])
+    if not P.same_groups(P.groups_of(ops), P.groups_of(stock_ops(base))):
+        run.violate('stock-table-differs', case,
+                    'the %s factory builds %r; the %s table is %r' % (
+                        base, P.groups_of(ops), base,
+                        P.groups_of(stock_ops(base))), input_class=base)
+
+
+REPLAY['stock'] = check_stock
+
+
 def stock_symbols(base):
-    f = common.make_factory(base)
-    t = P.Table([tuple(r) for r in f.operators])
+    t = P.Table(stock_ops(base))
     return sorted(t.binary), sorted(t.prefix)
 
 
@@ -371,12 +453,13 @@ def table_specs(draw, allow_invalid=False):
 
 @st.composite
 def programs(draw, spec, depth=0):
-    f = common.make_factory(spec['base'], [tuple(i) for i in spec['inserts']])
+    f = common.make_factory(spec['base'], [tuple(i) for i in spec['inserts']
+                                           + spec.get('after', [])])
     t = P.Table([tuple(r) for r in f.operators])
     bins = sorted(t.binary)
     pres = sorted(t.prefix)
     sufs = sorted(t.suffix)
-    inserted = [i[2] for i in spec['inserts']]
+    inserted = [i[2] for i in spec['inserts'] + spec.get('after', [])]
 
     def seq(d, maxops):
         toks = []
@@ -431,6 +514,18 @@ def _random_shard(run, n, shard):
 
 
 @st.composite
+def frozen_specs(draw):
+    """an engine is created part-way through a sequence of insertions into
+    one factory and used directly, through copy() or with per-call options:
+    its trees follow the table it was created from"""
+    spec = draw(table_specs().filter(lambda s_: s_['inserts']))
+    k = draw(st.integers(0, len(spec['inserts']) - 1))
+    return {'base': spec['base'], 'inserts': spec['inserts'][:k],
+            'after': spec['inserts'][k:],
+            'via': draw(st.sampled_from(['plain', 'copy', 'options']))}
+
+
+@st.composite
 def table_pairs(draw):
     """two tables holding the same operator records in different places"""
     a = draw(table_specs())
@@ -464,6 +559,10 @@ def _custom_shard(run, ntables, nprog, shard):
         lambda spec: st.tuples(*[programs(spec) for _ in range(3)])),
         lambda cs: [check_program(run, c) for c in cs],
         ntables * nprog // 3, shard=shard)
+    run.hyp('engine-keeps-its-table', frozen_specs().flatmap(
+        lambda spec: st.tuples(*[programs(spec) for _ in range(3)])),
+        lambda cs: [check_program(run, c) for c in cs],
+        ntables * nprog // 6, shard=shard)
     run.hyp('table-validity', table_specs(allow_invalid=True).map(
         lambda spec: {'kind': 'table', 'table': spec}),
         lambda c: check_table(run, c), ntables, shard=shard)
@@ -471,6 +570,8 @@ def _custom_shard(run, ntables, nprog, shard):
 
 def run(run):
     full = run.tier == 'thorough'
+    for base in ('default', 'legacy'):
+        check_stock(run, {'kind': 'stock', 'base': base})
     jobs = []
     for base in ('default', 'legacy'):
         bins, pres = stock_symbols(base)
